@@ -5,15 +5,15 @@
 package dns
 
 // the three digest-input serialisers only move forward inside their buffer
-//@ func packTsigWire [C11]
+//@ func packTsigWire [C11 C16]
 //@   requires tw != nil
 //@   ensures ok: ret1 == nil ==> 0 <= ret0 && ret0 <= len(msg)
 //@   writes msg
-//@ func packMacWire [C11]
+//@ func packMacWire [C11 C16]
 //@   requires mw != nil
 //@   ensures ok: ret1 == nil ==> ret0 == 2 + len(mw.MAC) / 2 && ret0 <= len(msg)
 //@   writes msg
-//@ func packTimerWire [C11]
+//@ func packTimerWire [C11 C16]
 //@   requires tw != nil
 //@   ensures ok: ret1 == nil ==> ret0 == 8 && ret0 <= len(msg)
 //@   writes msg
